@@ -32,6 +32,8 @@ def run(ctx: Ctx) -> None:
     from .c17 import rule_metric_value
     rule_metric_value(ctx)  # Infidelity.evaluate: 1 - F, and the representation literals of its dispatch
     from .c07 import rule_wrappers
+    from ..rules import tableau as _tb_sz
+    _tb_sz.rule_size_stale_per_branch(ctx)
     rule_wrappers(ctx)  # the mixed-stabilizer gate methods are what a noisy simulation runs; they must agree with the pure ones
     from ..rules import memo as _memo
     _memo.rule_memo_sound(ctx, ['graphiq/noise/noise_models.py', 'graphiq/backends/compiler_base.py'])
